@@ -184,6 +184,69 @@ def r16_1(rep, M, rid):
         rep.ok(rid, "get_matches: the reported cell offset is that of the nearest image")
     else:
         rep.violation(rid, "get_matches: cell offset", "the offset is not read at the index of the nearest image", M.where(GM))
+    # content of a reported substitution: which species was searched, which was found
+    ps = M.params(GM)
+    p_system, p_numbers = ps[0], ps[3]
+    subs = [c for c in ast.walk(fn) if isinstance(c, ast.Call)
+            and any(q.endswith(".Substitution") or q.endswith(".Substitution.__init__") for q in M.callees_of_call(GM, c))]
+    if not subs:
+        raise AnalysisError("get_matches: construction of Substitution not found")
+    sub_params = ["index", "position", "original_element", "substitutional_element"]
+    init = next((q for q in M.defs if q.endswith(".Substitution.__init__")), None)
+    if init is None or [a for a in M.params(init) if a != "self"] != sub_params:
+        raise AnalysisError("Substitution.__init__ signature changed")
+    defs = {}
+    for s2 in ast.walk(fn):
+        if isinstance(s2, ast.Assign) and len(s2.targets) == 1 and isinstance(s2.targets[0], ast.Name):
+            defs.setdefault(s2.targets[0].id, []).append(s2.value)
+
+    def elems(target, it):
+        """pair loop-target names with the sequence each one walks: enumerate(X) -> (index, X), zip(A, B) -> (A, B)"""
+        out = {}
+        if isinstance(target, ast.Name):
+            out[target.id] = it
+        elif isinstance(target, ast.Tuple) and isinstance(it, ast.Call) and isinstance(it.func, ast.Name):
+            if it.func.id == "enumerate" and len(target.elts) == 2 and it.args:
+                out.update(elems(target.elts[1], it.args[0]))
+            elif it.func.id == "zip" and len(target.elts) == len(it.args):
+                for t2, a2 in zip(target.elts, it.args):
+                    out.update(elems(t2, a2))
+        return out
+    loopvars = elems(loop.target, loop.iter)
+
+    def root(e, depth=0):
+        """the container a value is read from (indices are ignored): a parameter name or None"""
+        if depth > 10:
+            return None
+        if isinstance(e, ast.Subscript):
+            return root(e.value, depth + 1)
+        if isinstance(e, ast.Call) and isinstance(e.func, ast.Attribute) and not e.args:
+            return root(e.func.value, depth + 1)
+        if isinstance(e, ast.Name):
+            if e.id in loopvars:
+                return root(loopvars[e.id], depth + 1)
+            if e.id in ps and e.id not in defs:
+                return e.id
+            vs = {root(v, depth + 1) for v in defs.get(e.id, [])}
+            return vs.pop() if len(vs) == 1 else None
+        return None
+    for c in subs:
+        bound = dict(zip(sub_params, c.args))
+        bound.update({k.arg: k.value for k in c.keywords})
+        want = {"original_element": (p_numbers, "the species that was searched for at this position"),
+                "substitutional_element": (p_system, "the species of the atom found there"),
+                "position": (p_system, "the position of the atom found there")}
+        for par, (need, what) in want.items():
+            if par not in bound:
+                raise AnalysisError(f"get_matches: Substitution argument `{par}` not bound")
+            got = root(bound[par])
+            if got == need:
+                rep.ok(rid, f"get_matches: Substitution.{par} <- `{norm(bound[par])}` read from `{need}` ({what})")
+            elif got is None:
+                raise AnalysisError(f"get_matches: source of Substitution argument `{norm(bound[par])}` not resolved")
+            else:
+                rep.violation(rid, f"get_matches: Substitution.{par}", f"bound to `{norm(bound[par])}`, which is read from `{got}`; required {what} "
+                              f"(read from `{need}`): the defect is described backwards", M.where(GM, c))
 
 
 def guards_of_match(M, fq):
